@@ -136,8 +136,8 @@ def build_queries(prop, sysm, u, mon, tier='quick'):
             qs.append(Query('watch_keeps_running_after_failure', z3.And(nosig, S['main.phase'] != 0), [], confirm='watch_exit'))
     elif prop == 'C11':
         qs.append(Query('single_instance', G['double_svc'], [], confirm='double_svc'))
-        qs.append(Query('dependency_services_are_running_when_a_build_starts', G['svc_down'], [], confirm='svc_down',
-                        desc='a build script is spawned (outside shutdown) while a service it depends on, directly or through aggregates, has no running instance'))
+        qs.append(Query('dependency_services_are_running_when_a_build_starts', G['svc_down'], nf + [nosig], confirm='svc_down',
+                        desc='without faults or termination signal: a build script is spawned while a service it depends on, directly or through aggregates, has no running instance'))
         if not sysm.watch:
             base = nf + nohang + [nosig]
             qs.append(Query('stays_alive_iff_service_requested', z3.And(final_quiet, z3.Not(z3.If(svc_root, S['main.phase'] == 1, S['main.phase'] == 4))), base, confirm='alive'))
@@ -301,7 +301,7 @@ def confirm_native(kind, case, tr):
                 return True
             return all(up(x) for x in deps.get(d, []))
         for e in evs:
-            if e[0] in ('signal', 'main_done'):
+            if e[0] == 'main_done':
                 break
             if e[0] == 'spawn':
                 if kinds[e[1]] == 'service':
@@ -324,6 +324,8 @@ def run_case(arg):
     """Worker: one kinds-combination. Returns a dict of results."""
     (prop, kinds, watch, K, qcap, seed, do_witness, timeout_s, repo, tier) = arg[:10]
     budget_s = arg[10] if len(arg) > 10 else None        # wall-clock budget for all solver queries of this case
+    pin = arg[11] if len(arg) > 11 else None             # {'deps': {i: [j..]}, 'roots': [..]}: one fixed graph instead of all of them
+    only = arg[12] if len(arg) > 12 else None            # names of the obligations to discharge in this case (None = all)
     t_start = time.time()
     out = {'kinds': kinds, 'watch': watch, 'K': K, 'queries': [], 'witness': None, 'error': None, 'functions': [], 'paths': 0}
     try:
@@ -346,9 +348,17 @@ def run_case(arg):
         out['alternatives'] = len(u.alt_names)
         s = u.solver(timeout_ms=int(timeout_s * 1000))
         s.add(z3.Or(sysm.root))
+        if pin is not None:
+            for i in range(sysm.n):
+                for j in range(i):
+                    s.add(sysm.dep[i][j] if j in pin['deps'].get(i, []) else z3.Not(sysm.dep[i][j]))
+                s.add(sysm.root[i] if i in pin['roots'] else z3.Not(sysm.root[i]))
+            out['pinned'] = pin
         if watch:
             s.add(z3.ULE(u.ghosts[-1]['nnotify'], 2))      # bound E: at most two file-change notifications per run
         for q in build_queries(prop, sysm, u, mon, tier):
+            if only is not None and q.name not in only:
+                continue
             t0 = time.time()
             s.push()
             for a in q.assume:
@@ -358,8 +368,8 @@ def run_case(arg):
             depsyms = [sysm.dep[i][j] for i in range(sysm.n) for j in range(i)]
             r = z3.unsat
             nsub = 0
-            for bits in itertools.product([False, True], repeat=len(depsyms)):
-                assumps = [d if b else z3.Not(d) for d, b in zip(depsyms, bits)]
+            for bits in (itertools.product([False, True], repeat=len(depsyms)) if pin is None else [None]):
+                assumps = [d if b else z3.Not(d) for d, b in zip(depsyms, bits)] if bits is not None else []
                 nsub += 1
                 if budget_s is not None:
                     left = budget_s - (time.time() - t_start)
